@@ -731,10 +731,54 @@ def cases(tier):
     return out
 
 
+def _absmax(x):
+    if x is None:
+        return 0.0
+    try:
+        arr = np.asarray(x, dtype=float)
+        m = float(np.max(np.abs(arr))) if arr.size else 0.0
+        return m if m == m else 0.0
+    except (TypeError, ValueError):
+        return 0.0
+
+
 def replay(cand):
+    """run the body natively on the counterexample.  Convolution is homogeneous of degree 1 in the image and in the kernel, so
+    actual and reference are compared at a tolerance RELATIVE to the scale max|K| * max|values| of the input (1e-7 of it, plus
+    the rounding of adding/subtracting the background level) - an absolute 1e-7 would hide a dropped contribution of a faint
+    (1e-9-scale) blurring image, which is exactly what a tolerance-based shortcut in the code under test produces."""
+    import math
+    from symx import shim
     kw = dict(cand["case_kwargs"])
     kw.pop("masks", None)
     kw.pop("pattern", None)
-    c2 = dict(cand)
-    c2["case_kwargs"] = kw
-    return hx.replay_body(BODIES[cand["case_fn"]], c2)
+    inp = hx.to_float_struct(cand["case"])
+    actual, expected = BODIES[cand["case_fn"]](inp, **kw)
+    scale = _absmax(inp.get("K")) * max(_absmax(inp.get("v")), _absmax(inp.get("B")))
+    tol_abs = 1e-7 * scale + 1e-12 * _absmax(inp.get("bg")) + 1e-300
+    key = cand.get("obligation") if cand.get("obligation") in expected else None
+    bad = []
+    for k in expected:
+        if key is not None and k != key:
+            continue
+        a, e = actual.get(k), expected[k]
+        same = None
+        if k in actual and not isinstance(a, (hx.Raised, str)) and not isinstance(e, (hx.Raised, str)) and a is not None and e is not None:
+            try:
+                sa, fa = hx._flat(shim.normalise(hx.unwrap(a)))
+                se, fe = hx._flat(shim.normalise(hx.unwrap(e)))
+                if sa == se:
+                    fa, fe = [float(x) for x in fa], [float(x) for x in fe]
+                    if all(math.isfinite(x) for x in fa + fe):
+                        same = all(abs(x - y) <= tol_abs for x, y in zip(fa, fe))
+            except (TypeError, ValueError):
+                same = None
+        if same is None:
+            same = k in actual and hx.concrete_equal(a, e, 1e-7)
+        if not same:
+            bad.append(k)
+    if bad:
+        k = bad[0]
+        return True, "outputs differ from the reference on the real code (tolerance %.3g = 1e-7 of the input scale): %s; e.g. %s: actual=%s expected=%s" % (
+            tol_abs, bad, k, hx._short(actual.get(k)), hx._short(expected[k]))
+    return False, "real code agrees with the reference on this input (%d outputs, tolerance %.3g)" % (len(expected), tol_abs)
